@@ -167,6 +167,17 @@ Proof.
               rewrite E; apply map_ext; intros p; rewrite Nat.mod_1_r; reflexivity).
 Qed.
 
+(* 0-D maps (a single point): row = col = 0 *)
+Theorem acc_rowcol_0d (m : cmap) :
+  oshape m = [] -> length (ind m) = 1 -> acc_id m <> [] ->
+  acc_id m = [0] /\ acc_row m = Ok [0] /\ acc_col m = Ok [0].
+Proof.
+  intros Hs Hl Hne. unfold acc_row, acc_col, rc_shape, acc_id in *. rewrite Hs.
+  destruct (ind m) as [|b [|b' t]]; simpl in Hl; try discriminate.
+  destruct b; [|exfalso; apply Hne; reflexivity].
+  repeat split.
+Qed.
+
 (* -------------------------------------------------------- get_map_data *)
 (* position of original point p in the output array: its bounding-box
    relative index vector, ravelled in the bounding-box shape *)
@@ -244,11 +255,11 @@ Proof.
       destruct (Hnth d ltac:(lia)) as (H1 & H2 & H3). lia.
 Qed.
 
-Theorem get_map_data_placement (m : cmap) (vals : list V) (d : V) :
-  wf m -> acc_id m <> [] -> oshape m <> [] -> length vals = length (acc_id m) ->
+Theorem get_map_data_placement (m : cmap) (is_array : bool) (vals : list V) (d : V) :
+  wf m -> acc_id m <> [] -> length vals = length (acc_id m) ->
   let ws := wshape_of (bbox (oshape m) (acc_id m)) in
   exists out,
-    get_map_data m false vals = Ok (ws, out) /\
+    get_map_data m is_array vals = Ok (ws, out) /\
     length out = size ws /\
     (* every value sits at the (row, col) of its point *)
     (forall k, k < length (acc_id m) ->
@@ -258,21 +269,23 @@ Theorem get_map_data_placement (m : cmap) (vals : list V) (d : V) :
     (forall q, q < size ws -> (forall p, In p (acc_id m) -> out_pos m p <> q) ->
        nth q out None = None).
 Proof.
-  intros Hwf Hne Hs Hlv ws.
+  intros Hwf Hne Hlv ws.
   pose proof Hwf as (Hi & Hp & Hg).
   set (s := oshape m) in *. set (ids := acc_id m) in *. set (bb := bbox s ids) in *.
   assert (Hlt : forall p, In p ids -> p < size s).
   { intros p Hp'. apply ids_of_lt in Hp'. congruence. }
   assert (Hlb : length bb = length s) by apply bbox_length.
   unfold get_map_data. fold s.
-  assert (Hm : forall (X : res (list nat * list (option V))),
-             match s with [] => Err TypeError | _ :: _ => X end = X)
-    by (intros X; destruct s; [congruence | reflexivity]).
-  rewrite Hm. cbv zeta. cbn [andb orb]. rewrite Hi, Nat.eqb_refl. cbn [negb].
+  cbv zeta. rewrite Hi, Nat.eqb_refl. cbn [negb].
   change (count (ind m)) with (length ids). rewrite Hlv, Nat.eqb_refl. cbn [orb negb].
   rewrite data_slices_bbox by assumption. cbn [bind]. fold s ids bb.
   unfold zbox at 1. rewrite map_length, Hlb, Nat.eqb_refl. cbn [negb].
   rewrite (window_is_bbox s ids Hne Hlt : zip_with win_bounds s (zbox bb) = bb). fold ws.
+  assert (Hm : forall (X : list nat * list (option V)),
+             match s, length ids with [], 0 => Err TypeError | _, _ => Ok X end = Ok X).
+  { intros X. destruct s; [|reflexivity].
+    destruct ids; [congruence | reflexivity]. }
+  rewrite Hm.
   eexists. split; [reflexivity|].
   split; [rewrite map_length, seq_length; reflexivity|].
   split.
